@@ -38,6 +38,10 @@ pub trait SimHooks: Send + Sync {
     }
     fn cond_block(&self, _cond: usize, _ticket: u64) {}
     fn cond_notify(&self, _cond: usize, _all: bool) {}
+    /// Runs a future to completion on a simulator-owned task (stands in for `tokio::spawn`).
+    fn spawn_future(&self, _f: std::pin::Pin<Box<dyn std::future::Future<Output = ()> + Send>>) {
+        panic!("verif: spawn_future is not available without a simulator")
+    }
 }
 
 struct NoHooks;
